@@ -3,11 +3,13 @@
     No Extract Constant / Extract Inductive directive of our own. *)
 Require Extraction.
 Require Import ExtrOcamlBasic.
-From ZV Require Import Base.Bytes Base.Res Spec.Rfc23 Model.Codec.
+From ZV Require Import Base.Bytes Base.Res Spec.Rfc23 Model.Codec Spec.Stream Spec.Compat Model.Handshake.
 Extraction Language OCaml.
 Separate Extraction
   Bytes.be Bytes.of_be Bytes.lenN Bytes.is_prefix
   Rfc23.rfc_message Rfc23.rfc_frames Rfc23.rfc_command Rfc23.rfc_greeting_wf Rfc23.rfc_minimal_size
   Rfc23.rfc_greeting_version Rfc23.rfc_greeting_mech
   Codec.encode_msg Codec.frame_hdr Codec.encode_greeting Codec.default_greeting Codec.encode_ready
-  Codec.ready_props Codec.stype_of_name Codec.lib_items Codec.all_stypes.
+  Codec.ready_props Codec.stype_of_name Codec.lib_items Codec.lib_reader Codec.held Codec.all_stypes
+  Stream.spec_items
+  Handshake.handshake_verdict Handshake.compatible Compat.rfc_compat Codec.stype_idx Codec.stype_name.
